@@ -502,6 +502,17 @@ func (E *Engine) fnWrites(fn *ssa.Function, actuals []ssa.Value, bindings []ssa.
 		} else if o := fn.Origin(); o != nil && o.Object() != nil {
 			pkg = o.Object().Pkg()
 		}
+		if pkg != nil && stdMutatesSlice(pkg.Path(), fn) {
+			if len(actuals) > 0 {
+				if stp := sliceCore(E.subst(actuals[0].Type(), tenv)); stp != nil {
+					k, srt := E.arrKey(stp.Elem(), tenv)
+					E.regKey(w, k, srt).any = true
+					return
+				}
+			}
+			w.all = true
+			return
+		}
 		if E.isNoEffect(name, pkg) {
 			return
 		}
